@@ -146,7 +146,7 @@ func flatten(ns []*tnode, out *[]*tnode) {
 	}
 }
 
-var shapeNames = []string{"emptied", "one byte shorter", "one byte longer", "four bytes longer", "leading zero byte added", "duplicated", "removed"}
+var shapeNames = []string{"emptied", "one byte shorter", "one byte longer", "four bytes longer", "leading zero byte added", "duplicated", "removed", "cut to its first byte", "cut to its first two bytes"}
 
 func encodeTree(ns []*tnode, target *tnode, variant int) []byte {
 	var out []byte
@@ -179,6 +179,11 @@ func encodeTree(ns []*tnode, target *tnode, variant int) []byte {
 			e := der.TLV(n.tag, body)
 			out = append(append(out, e...), e...)
 		case 6:
+		case 7, 8:
+			if k := variant - 6; len(body) > k {
+				body = body[:k]
+			}
+			out = append(out, der.TLV(n.tag, body)...)
 		}
 	}
 	return out
